@@ -462,7 +462,7 @@ def check(rep: Report, tier: str, seed: int) -> None:
     correspondence(rep, rng, tier)
     oracle(rep, seeded(seed * 104729 + 6), 90 if tier == "quick" else 1500, 6 if tier == "quick" else 7)
     rep.extra["t_total_s"] = round(time.time() - t0, 1)
-    if rep.broken and not rep.failing:
+    if rep.broken and not rep.unknown_failing():
         search(rep, seed, 400 if tier == "quick" else 4000)
 
 
